@@ -374,6 +374,8 @@ func init() {
 		},
 		// ---- strings / strconv ----
 		"strings.TrimSpace": modelTrimSpace,
+		"unicode/utf8.ValidString": modelValidUTF8,
+		"strings.ToValidUTF8":      modelToValidUTF8,
 		"strings.ToLower":   func(e *Exec, c *frame, fn *ssa.Function, a []Value) Value { return modelCaseMap(e, a, true) },
 		"strings.ToUpper":   func(e *Exec, c *frame, fn *ssa.Function, a []Value) Value { return modelCaseMap(e, a, false) },
 		"strconv.Itoa":      modelItoa,
@@ -598,6 +600,76 @@ func modelCaseMap(e *Exec, a []Value, lower bool) Value {
 		*st.cell(i) = e.norm(sym.Ite(in, sym.Add(b, sym.Const(8, delta)), b))
 	}
 	return Slice{St: st, Len: st.N, Cap: st.N}
+}
+
+// ---- utf8.ValidString / strings.ToValidUTF8 on symbolic strings: exact for
+// ASCII strings of any length and for strings of one or two bytes; longer
+// strings with a byte >= 0x80 are outside the model (unsupported) ----
+
+func (e *Exec) utf8Shape(s Slice) (n int, ascii bool) {
+	n = e.ConcInt(s.Len)
+	non := sym.Bool(false)
+	for i := 0; i < n; i++ {
+		non = sym.Or(non, sym.Ule(sym.Const(8, 0x80), s.St.peek(e.o(s)+i).(sym.Sc)))
+	}
+	return n, !e.Branch(e.norm(non))
+}
+
+// validPair: b0 b1 is one well-formed two-byte sequence (C2..DF 80..BF)
+func validPair(b0, b1 sym.Sc) sym.Sc {
+	return sym.And(sym.And(sym.Ule(sym.Const(8, 0xC2), b0), sym.Ule(b0, sym.Const(8, 0xDF))),
+		sym.And(sym.Ule(sym.Const(8, 0x80), b1), sym.Ule(b1, sym.Const(8, 0xBF))))
+}
+
+func modelValidUTF8(e *Exec, c *frame, fn *ssa.Function, a []Value) Value {
+	s := a[0].(Slice)
+	n, ascii := e.utf8Shape(s)
+	if ascii {
+		return sym.Bool(true)
+	}
+	switch n {
+	case 1:
+		return sym.Bool(false)
+	case 2:
+		return e.norm(validPair(s.St.peek(e.o(s)).(sym.Sc), s.St.peek(e.o(s)+1).(sym.Sc)))
+	}
+	e.unsupported("utf8.ValidString of a non-ASCII string longer than two bytes")
+	return nil
+}
+
+func modelToValidUTF8(e *Exec, c *frame, fn *ssa.Function, a []Value) Value {
+	s, repl := a[0].(Slice), a[1].(Slice)
+	n, ascii := e.utf8Shape(s)
+	if ascii {
+		return s
+	}
+	hi := func(b sym.Sc) bool { return e.Branch(e.norm(sym.Ule(sym.Const(8, 0x80), b))) }
+	one := func(b sym.Sc) Slice {
+		st := e.newStore(byteT, i64(1))
+		*st.cell(0) = b
+		return Slice{St: st, Len: st.N, Cap: st.N}
+	}
+	empty := Slice{Len: i64zero, Cap: i64zero}
+	switch n {
+	case 1:
+		return e.appendBytes(empty, repl)
+	case 2:
+		b0, b1 := s.St.peek(e.o(s)).(sym.Sc), s.St.peek(e.o(s)+1).(sym.Sc)
+		if e.Branch(e.norm(validPair(b0, b1))) {
+			return s
+		}
+		h0, h1 := hi(b0), hi(b1)
+		switch {
+		case h0 && h1: // a run of invalid bytes is replaced once
+			return e.appendBytes(empty, repl)
+		case h0:
+			return e.appendBytes(e.appendBytes(empty, repl), one(b1))
+		default:
+			return e.appendBytes(e.appendBytes(empty, one(b0)), repl)
+		}
+	}
+	e.unsupported("strings.ToValidUTF8 of a non-ASCII string longer than two bytes")
+	return nil
 }
 
 // ---- strings.TrimSpace: ASCII white space only (bytes >= 0x80 are kept;
